@@ -11,7 +11,7 @@ COMMON_TB = [
 PROPS = {
     "C05": {
         "harness": "c05",
-        "coq_header": "From DS Require Import Base Versions.\nFrom DSR Require Import Run_C05.",
+        "coq_header": "From DS Require Import Base Versions Semver.\nFrom DSR Require Import Run_C05.",
         "case_type": "c05case",
         "judge": "judge",
         "rule": "range cases: every range over a 7-element chain of real semver versions (all/from/until and all 49 "
